@@ -173,6 +173,11 @@ theorem ptfr_pack_eq (s : PTFR.State) (h : PTFR_WF s) :
   simp only [hl, ne_eq, not_true_eq_false, if_false, structPack, PTFR_pack_fmt0, packCodes, Code.bound,
     if_true, Code.size, encInt, hp, encodeStr_word, List.append_nil, h16, hb]
 
+theorem ptfr_pack_length (s : PTFR.State) (h : PTFR_WF s) :
+    ∃ b, (PTFR.pack s).2 = .ok b ∧ b.length = 4 + s.length := by
+  refine ⟨_, by rw [ptfr_pack_eq s h], ?_⟩
+  simp [h.2.2.2]; omega
+
 /-- what `PTFR.unpack` does once the first byte and the protected word are decoded -/
 def ptfrCore (t : PTFR.State) (byte_ p : Nat) (body : Bytes) : PTFR.State × R Unit :=
   PTFR.setPayload { t with version := byte_ &&& 0x3, streamid := (byte_ >>> 4) &&& 0xF,
